@@ -27,9 +27,31 @@
         (18 3 3 el prec v)                         Record / Trace Display (number only, precision not forwarded)
         (18 3 4 prec n (l...) (d...))              LDLTDecomposition<i64> Display (from_unchecked)
         (18 3 5 prec rows cols (v...))             RecordMatrix<i64> and RecordTensor<i64, 2> (names d0 d1)
-                                                   Display: result (0 (text_matrix text_tensor)) *)
+                                                   Display: result (0 (text_matrix text_tensor))
+      Wave 2: kinds 1 and 2 accept every D <= 6 (the general arm of tensors/display.rs; an access with
+      D > 2 keeps the tensor's order), and
+        (18 3 6 form err)      an ERROR value rendered as form 0 = Display "{}", 1 = "{:?}", 2 = "{:#?}"
+            shape ::= ((name len)...)  (ANY names / lengths, 0 and 2^64-1 included)   hist ::= () | (k): a tape with k variables
+            err ::= (0 shape)                             tensors::InvalidShapeError
+                  | (1 (provided...) (valid...))          tensors::InvalidDimensionsError
+                  | (2 shape (requested...))              tensors::indexing::InvalidDimensionsError
+                  | (3 irv)    irv ::= (0 shape) | (1 (provided...) (valid...))    IndexRangeValidationError
+                  | (4 0 shape (r...)) | (4 1 irv)   r ::= () | ((start length))  StrictIndexRangeValidationError
+                  | (5)                                   ScalarConversionError
+                  | (6 0 shape len) | (6 1) | (6 2 hist hist)   InvalidRecordIteratorError<i64, D>
+                  | (7 hist hist)                         InconsistentHistory<i64>
+                  | (8 wrong ((name len)) (mean...) ((name len) (name len)) (cov...))   MultivariateGaussianError<i64>
+        (18 3 7 form val)      derived Debug of plain data, form 1 = "{:?}", 2 = "{:#?}"
+            val ::= (0 shape (v...)) Tensor<i64, D> | (1 rows cols (v...)) Matrix<i64> | (2 start length) tensors IndexRange
+                  | (3 start length) matrices IndexRange | (4 (0 (names...))) | (4 (1)) | (4 (2)) DataLayout<D>
+                  | (5 shape) [(Dimension, usize); D] | (6 (names...)) [Dimension; D]
+        (18 3 8 prec 0 qrows qcols (q...) rrows rcols (r...))   QRDecomposition<i64> Display
+        (18 3 8 prec 1 n (l...) (d...))            LDLTDecompositionTensor<i64> Display (names d0 d1)
+        (18 3 8 prec 2 qrows qcols (q...) rrows rcols (r...))   QRDecompositionTensor<i64> Display (names d0 d1)
+        (18 3 8 prec 3 el rows cols (v...) r c)    MatrixQuadrants Display of partition_quadrants(r, c), 0 < r < rows, 0 < c < cols
+                                                   (four non-empty parts) *)
 From Coq Require Import List ZArith NArith Bool Arith.
-From EasyML Require Import Base.Sx Model.Num Model.Tape Model.Determinism Model.Format.
+From EasyML Require Import Base.Sx Model.Num Model.Tape Model.Determinism Model.Format Model.FormatDebug.
 Import ListNotations.
 
 Section Run.
@@ -89,6 +111,169 @@ Definition valid_shape (sh : list (nat * nat)) : bool :=
   forallb (fun p => Nat.ltb 0 (snd p)) sh && distinct (map fst sh).
 Definition volume (sh : list (nat * nat)) : nat := fold_left Nat.mul (map snd sh) 1.
 
+(* ---- wave 2: error values, Debug of plain data, decompositions *)
+Definition dnshape : sx -> option (list (nat * N)) := dlist (dpair dnat dN).
+Definition dhist : sx -> option (option nat) := dopt dnat.
+
+Inductive err_v :=
+| EShape (sh : list (nat * N))
+| EDims (provided valid : list nat)
+| EAccess (actual : list (nat * N)) (requested : list nat)
+| EIrv (e : irv_error)
+| EStrict (e : strict_error)
+| EScalar
+| ERie (e : rec_iter_error)
+| EIncons (f l : option nat)
+| EMvg (e : mvg_payload).
+
+Definition dirv (s : sx) : option irv_error :=
+  match s with
+  | SL [SZ 0%Z; sh] => option_map IrvShape (dnshape sh)
+  | SL [SZ 1%Z; p; v] =>
+      match dlist dnat p, dlist dnat v with Some p, Some v => Some (IrvDims p v) | _, _ => None end
+  | _ => None
+  end.
+
+Definition derr (s : sx) : option err_v :=
+  match s with
+  | SL [SZ 0%Z; sh] => option_map EShape (dnshape sh)
+  | SL [SZ 1%Z; p; v] =>
+      match dlist dnat p, dlist dnat v with Some p, Some v => Some (EDims p v) | _, _ => None end
+  | SL [SZ 2%Z; sh; r] =>
+      match dnshape sh, dlist dnat r with
+      | Some sh, Some r => if Nat.eqb (length sh) (length r) then Some (EAccess sh r) else None
+      | _, _ => None
+      end
+  | SL [SZ 3%Z; e] => option_map EIrv (dirv e)
+  | SL [SZ 4%Z; SZ 0%Z; sh; rs] =>
+      match dnshape sh, dlist (dopt (dpair dN dN)) rs with
+      | Some sh, Some rs => if Nat.eqb (length sh) (length rs) then Some (EStrict (StrictOutside sh rs)) else None
+      | _, _ => None
+      end
+  | SL [SZ 4%Z; SZ 1%Z; e] => option_map (fun e => EStrict (StrictError e)) (dirv e)
+  | SL [SZ 5%Z] => Some EScalar
+  | SL [SZ 6%Z; SZ 0%Z; sh; len] =>
+      match dnshape sh, dN len with Some sh, Some len => Some (ERie (RieShape sh len)) | _, _ => None end
+  | SL [SZ 6%Z; SZ 1%Z] => Some (ERie RieEmpty)
+  | SL [SZ 6%Z; SZ 2%Z; f; l] =>
+      match dhist f, dhist l with Some f, Some l => Some (ERie (RieHistory f l)) | _, _ => None end
+  | SL [SZ 7%Z; f; l] =>
+      match dhist f, dhist l with Some f, Some l => Some (EIncons f l) | _, _ => None end
+  | SL [SZ 8%Z; w; msh; m; csh; c] =>
+      match dbool w, dshape msh, dlist dZ m, dshape csh, dlist dZ c with
+      | Some w, Some msh, Some m, Some csh, Some c =>
+          if valid_shape msh && valid_shape csh && Nat.eqb (length msh) 1 && Nat.eqb (length csh) 2
+             && Nat.eqb (length m) (volume msh) && Nat.eqb (length c) (volume csh)
+          then Some (EMvg {| mg_wrong_length := w;
+                             mg_mean_shape := map (fun p => (fst p, N.of_nat (snd p))) msh; mg_mean := m;
+                             mg_cov_shape := map (fun p => (fst p, N.of_nat (snd p))) csh; mg_cov := c |})
+          else None
+      | _, _, _, _, _ => None
+      end
+  | _ => None
+  end.
+
+Definition err_display (e : err_v) : text :=
+  match e with
+  | EShape sh => fmt_err_shape sh
+  | EDims p v => fmt_err_dims p v
+  | EAccess a r => fmt_err_access a r
+  | EIrv e => fmt_err_irv e
+  | EStrict e => fmt_err_strict e
+  | EScalar => fmt_err_scalar
+  | ERie e => fmt_err_rie e
+  | EIncons f l => fmt_err_inconsistent f l
+  | EMvg e => fmt_err_mvg e
+  end.
+
+Definition err_debug (e : err_v) : dbg :=
+  match e with
+  | EShape sh => d_invalid_shape sh
+  | EDims p v => d_invalid_dims p v
+  | EAccess a r => d_invalid_access a r
+  | EIrv e => d_irv e
+  | EStrict e => d_strict e
+  | EScalar => DAtom n_ScalarConversionError
+  | ERie e => d_rie e
+  | EIncons f l => d_inconsistent f l
+  | EMvg e => d_mvg e
+  end.
+
+Definition dval (s : sx) : option dbg :=
+  match s with
+  | SL [SZ 0%Z; sh; data] =>
+      match dshape sh, dlist dZ data with
+      | Some sh, Some data =>
+          if valid_shape sh && Nat.eqb (length data) (volume sh)
+          then Some (d_tensor (map (fun p => (fst p, N.of_nat (snd p))) sh) data) else None
+      | _, _ => None
+      end
+  | SL [SZ 1%Z; rows; cols; data] =>
+      match dnat rows, dnat cols, dlist dZ data with
+      | Some rows, Some cols, Some data =>
+          if Nat.ltb 0 rows && Nat.ltb 0 cols && Nat.eqb (length data) (rows * cols)
+          then Some (d_matrix (N.of_nat rows) (N.of_nat cols) data) else None
+      | _, _, _ => None
+      end
+  | SL [SZ 2%Z; a; b] | SL [SZ 3%Z; a; b] =>
+      match dN a, dN b with Some a, Some b => Some (d_index_range (a, b)) | _, _ => None end
+  | SL [SZ 4%Z; SL [SZ 0%Z; ns]] => option_map (fun ns => d_layout (LayLinear ns)) (dlist dnat ns)
+  | SL [SZ 4%Z; SL [SZ 1%Z]] => Some (d_layout LayNonLinear)
+  | SL [SZ 4%Z; SL [SZ 2%Z]] => Some (d_layout LayOther)
+  | SL [SZ 5%Z; sh] => option_map d_shape (dnshape sh)
+  | SL [SZ 6%Z; ns] => option_map d_names (dlist dnat ns)
+  | _ => None
+  end.
+
+Definition sub2 (dflt : Z) (cols : nat) (data : list Z) (r0 c0 : nat) (r c : nat) : Z :=
+  flat2 dflt cols data (r0 + r) (c0 + c).
+
+Definition c18_decomp (prec : option N) (rest : list sx) : sx :=
+  match rest with
+  | [SZ 0%Z; qr; qc; q; rr; rc; r] =>
+      match dnat qr, dnat qc, dlist dZ q, dnat rr, dnat rc, dlist dZ r with
+      | Some qr, Some qc, Some q, Some rr, Some rc, Some r =>
+          if Nat.ltb 0 qr && Nat.ltb 0 qc && Nat.ltb 0 rr && Nat.ltb 0 rc
+             && Nat.eqb (length q) (qr * qc) && Nat.eqb (length r) (rr * rc)
+          then stext (fmt_qr (render ElInt) prec qr qc (flat2 0%Z qc q) rr rc (flat2 0%Z rc r))
+          else bad_case
+      | _, _, _, _, _, _ => bad_case
+      end
+  | [SZ 1%Z; n; lm; dm] =>
+      match dnat n, dlist dZ lm, dlist dZ dm with
+      | Some n, Some lm, Some dm =>
+          if Nat.ltb 0 n && Nat.eqb (length lm) (n * n) && Nat.eqb (length dm) (n * n)
+          then match fmt_two_tensors (render ElInt) prec t_l t_d [(0, n); (1, n)] (flatn 0%Z [n; n] lm)
+                                     [(0, n); (1, n)] (flatn 0%Z [n; n] dm) with
+               | Some t => stext t | None => bad_case end
+          else bad_case
+      | _, _, _ => bad_case
+      end
+  | [SZ 2%Z; qr; qc; q; rr; rc; r] =>
+      match dnat qr, dnat qc, dlist dZ q, dnat rr, dnat rc, dlist dZ r with
+      | Some qr, Some qc, Some q, Some rr, Some rc, Some r =>
+          if Nat.ltb 0 qr && Nat.ltb 0 qc && Nat.ltb 0 rr && Nat.ltb 0 rc
+             && Nat.eqb (length q) (qr * qc) && Nat.eqb (length r) (rr * rc)
+          then match fmt_two_tensors (render ElInt) prec t_q t_r [(0, qr); (1, qc)] (flatn 0%Z [qr; qc] q)
+                                     [(0, rr); (1, rc)] (flatn 0%Z [rr; rc] r) with
+               | Some t => stext t | None => bad_case end
+          else bad_case
+      | _, _, _, _, _, _ => bad_case
+      end
+  | [SZ 3%Z; el; rows; cols; data; r; c] =>
+      match delty el, dnat rows, dnat cols, dlist dZ data, dnat r, dnat c with
+      | Some el, Some rows, Some cols, Some data, Some r, Some c =>
+          if Nat.ltb 0 rows && Nat.ltb 0 cols && Nat.eqb (length data) (rows * cols)
+             && Nat.ltb 0 r && Nat.ltb r rows && Nat.ltb 0 c && Nat.ltb c cols
+          then let part r0 c0 nr nc := fmt_matrix (render el) None nr nc (sub2 0%Z cols data r0 c0) in
+               stext (fmt_quadrants (render el) prec (part 0 0 r c) (part 0 c r (cols - c))
+                                    (part r 0 (rows - r) c) (part r c (rows - r) (cols - c)))
+          else bad_case
+      | _, _, _, _, _, _ => bad_case
+      end
+  | _ => bad_case
+  end.
+
 Definition c18_format (args : list sx) : sx :=
   match args with
   | [SZ 0%Z; el; prec; rows; cols; data] =>
@@ -102,7 +287,7 @@ Definition c18_format (args : list sx) : sx :=
   | [SZ 1%Z; el; prec; shape; data] =>
       match delty el, dprec prec, dshape shape, dlist dZ data with
       | Some el, Some prec, Some sh, Some data =>
-          if valid_shape sh && Nat.eqb (length data) (volume sh)
+          if valid_shape sh && Nat.eqb (length data) (volume sh) && Nat.leb (length sh) 6
           then match fmt_tensor (render el) prec sh (flatn 0%Z (map snd sh) data) with
                | Some t => stext t | None => bad_case end
           else bad_case
@@ -111,7 +296,7 @@ Definition c18_format (args : list sx) : sx :=
   | [SZ 2%Z; el; prec; shape; data; swap] =>
       match delty el, dprec prec, dshape shape, dlist dZ data, dbool swap with
       | Some el, Some prec, Some sh, Some data, Some swap =>
-          if valid_shape sh && Nat.eqb (length data) (volume sh) && Nat.leb (length sh) 2
+          if valid_shape sh && Nat.eqb (length data) (volume sh) && Nat.leb (length sh) 6
           then let src := flatn 0%Z (map snd sh) data in
                let '(vsh, get) :=
                  match sh, swap with
@@ -147,6 +332,28 @@ Definition c18_format (args : list sx) : sx :=
                end
           else bad_case
       | _, _, _, _ => bad_case
+      end
+  | [SZ 6%Z; form; e] =>
+      match dnat form, derr e with
+      | Some form, Some e =>
+          match form with
+          | 0 => stext (err_display e)
+          | 1 => stext (dbg_c (err_debug e))
+          | 2 => stext (dbg_p (err_debug e))
+          | _ => bad_case
+          end
+      | _, _ => bad_case
+      end
+  | [SZ 7%Z; form; v] =>
+      match dnat form, dval v with
+      | Some 1, Some d => stext (dbg_c d)
+      | Some 2, Some d => stext (dbg_p d)
+      | _, _ => bad_case
+      end
+  | SZ 8%Z :: prec :: rest =>
+      match dprec prec with
+      | Some prec => c18_decomp prec rest
+      | None => bad_case
       end
   | _ => bad_case
   end.
